@@ -1,0 +1,76 @@
+//go:build verif
+
+package proxy
+
+// Verification export hooks for property C20 (Velocity modern forwarding) — /verif/harness/cmd/c20.
+// Thin wrappers only (no logic): re-exports of pkg/edition/java/internal/velocity (internal to the gate
+// module) and the struct literals needed to run the real backendLoginSessionHandler on caller-supplied
+// connections. Compiled only with `-tags verif`.
+
+import (
+	"context"
+
+	"go.minekube.com/common/minecraft/component"
+	"go.minekube.com/gate/pkg/edition/java/internal/velocity"
+	"go.minekube.com/gate/pkg/edition/java/netmc"
+	"go.minekube.com/gate/pkg/edition/java/profile"
+	"go.minekube.com/gate/pkg/edition/java/proxy/crypto"
+	"go.minekube.com/gate/pkg/gate/proto"
+)
+
+// VerifC20Player is velocity.ConnectedPlayer (an interface over public types only).
+type VerifC20Player = velocity.ConnectedPlayer
+
+// VerifC20FindForwardingVersion = velocity.findForwardingVersion.
+func VerifC20FindForwardingVersion(requested int, player VerifC20Player) int {
+	return velocity.VerifFindForwardingVersion(requested, player)
+}
+
+// VerifC20CreateForwardingData = velocity.CreateForwardingData.
+func VerifC20CreateForwardingData(secret []byte, address string, player VerifC20Player, requested int) ([]byte, error) {
+	return velocity.CreateForwardingData(secret, address, player, requested)
+}
+
+// VerifC20Login holds a backendLoginSessionHandler and its request context.
+type VerifC20Login struct {
+	h    netmc.SessionHandler
+	resp chan *connResponse
+	sc   *serverConnection
+}
+
+// VerifC20NewBackendLogin builds the player / server connection literals (as in
+// backend_handshake_addresser_test.go) and newBackendLoginSessionHandler over them.
+func VerifC20NewBackendLogin(px *Proxy, client netmc.MinecraftConn, prof *profile.GameProfile,
+	key crypto.IdentifiedKey, info ServerInfo, backend netmc.MinecraftConn) *VerifC20Login {
+	deps := &sessionHandlerDeps{proxy: px, registrar: px, configProvider: px, eventMgr: px.event}
+	player := &connectedPlayer{MinecraftConn: client, sessionHandlerDeps: deps, profile: prof, playerKey: key}
+	sc := &serverConnection{server: newRegisteredServer(info), player: player, connection: backend}
+	resp := make(chan *connResponse, 1)
+	rc := &connRequestCxt{Context: context.Background(), response: resp}
+	return &VerifC20Login{h: newBackendLoginSessionHandler(sc, rc, deps), resp: resp, sc: sc}
+}
+
+// Handle = backendLoginSessionHandler.HandlePacket.
+func (v *VerifC20Login) Handle(pc *proto.PacketContext) { v.h.HandlePacket(pc) }
+
+// Result reads the connection result delivered so far, if any (non-blocking):
+// delivered, its status, its reason and its error.
+func (v *VerifC20Login) Result() (delivered bool, status ConnectionStatus, reason component.Component, err error) {
+	select {
+	case r := <-v.resp:
+		if r.connectionResult != nil {
+			return true, r.connectionResult.status, r.connectionResult.reason, r.error
+		}
+		return true, 0, nil, r.error
+	default:
+		return false, 0, nil, nil
+	}
+}
+
+// InformationForwarded reads backendLoginSessionHandler.informationForwarded.
+func (v *VerifC20Login) InformationForwarded() bool {
+	return v.h.(*backendLoginSessionHandler).informationForwarded.Load()
+}
+
+// ForwardingFailureReason is the disconnect reason of the forwarding-required check.
+func VerifC20ForwardingFailureReason() component.Component { return velocityIpForwardingFailure }
